@@ -116,7 +116,7 @@ func c02ReadOnlySpec(rng *rand.Rand, i int) *c02Params {
 	for vb := 0; vb < sp.NumVB; vb++ {
 		sp.Failover[vb] = [][2]uint64{{0xabc000 + uint64(vb), 0}}
 		sp.Backlog[vb] = append(sp.Backlog[vb], genSnap(rng, o, &ctr), genSnap(rng, o, &ctr))
-		if sp.Backend == "file" || rng.Intn(2) == 0 {
+		if (sp.Backend == "file" && i%6 != 2) || (sp.Backend != "file" && rng.Intn(2) == 0) {
 			sp.PreStore[vb] = [4]uint64{0xabc000 + uint64(vb), 1, 1, 1}
 		}
 	}
@@ -317,6 +317,9 @@ func OracleResume(tr *Trace) ([]Finding, int) {
 		w := tr.count("md.write") + tr.count("sim.xattrwrite") + tr.count("sim.docwrite")
 		if w > 0 {
 			fs = append(fs, Finding{"C02", "readonly", "C02/readonly-write", fmt.Sprintf("read-only metadata mode: %d write(s) reached the store", w)})
+		}
+		if sp.Backend == "file" && len(sp.PreStore) == 0 && tr.FileAtEnd != "" && tr.FileAtEnd != "<absent>" {
+			fs = append(fs, Finding{"C02", "readonly", "C02/readonly-write", fmt.Sprintf("read-only metadata mode: there was no checkpoint file when the client started; afterwards the file exists (%d bytes: %s)", len(tr.FileAtEnd), trunc(tr.FileAtEnd, 80))})
 		}
 	}
 	return fs, n
